@@ -1,6 +1,7 @@
 """Second tie of the "next" kernel to the source: on every run the Python text of
-_find_prob, _are_you_my_child, find_children, is_parent_around and
-_recursive_restore_prob_order (lib_guesser/pcfg_grammar.py) is translated to
+_find_prob, _are_you_my_child, find_children, is_parent_around,
+_recursive_restore_prob_order and initalize_base_structures (lib_guesser/pcfg_grammar.py; other
+methods of the class they call are inlined at the call) is translated to
 Gallina (harness/translate_kernel.py, fail closed) into coq/gen/Kernel_gen.v;
 coq/theories/KernelGenProofs.v proves the generated definitions equal to the
 hand-written model of coq/theories/Next.v.
